@@ -39,6 +39,8 @@ type envCase struct {
 	Skip      bool       `json:"skip_host_env"`
 	CmdEnv    []string   `json:"cmd_env"`
 	HostEnv   []string   `json:"host_env"` // the environment of the hx child that runs this case
+	// PresetStdin: the caller's exec.Cmd already has a Stdin of its own (the launched command must still read the host's stdin)
+	PresetStdin bool `json:"preset_stdin,omitempty"`
 }
 
 func init() {
@@ -75,7 +77,7 @@ func genEnv(o opts) [][]envCase {
 		for i := 0; i < perEnv; i++ {
 			c := envCase{CookieKey: hk.Pick(r, []string{"K", "BASIC_PLUGIN", "MAGIC_COOKIE"}), CookieVal: hk.Pick(r, []string{"V", "hello", "a=b", ""}),
 				CVersion: r.Intn(4), HasLegacy: r.Intn(2) == 0, Mux: r.Intn(2) == 0, AutoMTLS: r.Intn(3) == 0,
-				Launch: hk.Pick(r, []string{"cmd", "runnerfunc"}), Skip: r.Intn(2) == 0, HostEnv: host}
+				Launch: hk.Pick(r, []string{"cmd", "runnerfunc"}), Skip: r.Intn(2) == 0, HostEnv: host, PresetStdin: r.Intn(3) == 0}
 			switch r.Intn(3) {
 			case 0:
 				c.MinPort, c.MaxPort = 0, 0
@@ -236,6 +238,9 @@ func runEnvChild(o opts) error {
 			cmd := exec.Command("/bin/sh", "-c", `cat /proc/self/environ > "$0"; if [ -t 0 ] || [ -e /proc/self/fd/0 ]; then :; fi`, dump)
 			if c.CmdEnv != nil {
 				cmd.Env = append([]string{}, c.CmdEnv...)
+			}
+			if c.PresetStdin {
+				cmd.Stdin = strings.NewReader("preset by the caller\n")
 			}
 			cfg.Cmd = cmd
 			defer os.Remove(dump)
